@@ -1693,19 +1693,15 @@ func (t *tScreen) parseRune(buf *bytes.Buffer, evs *[]Event) (bool, bool) {
 	utf := make([]byte, 12)
 	for l := 1; l <= len(b); l++ {
 		t.decoder.Reset()
-		nOut, nIn, e := t.decoder.Transform(utf, b[:l], true)
+		// The decoder is not told that the input ends with this prefix:
+		// for the start of a multi-byte character it then asks for
+		// more (ErrShortSrc) instead of substituting U+FFFD for it.
+		nOut, nIn, e := t.decoder.Transform(utf, b[:l], false)
 		if e == transform.ErrShortSrc {
 			continue
 		}
 		if nOut != 0 {
 			r, _ := utf8.DecodeRune(utf[:nOut])
-			if r == utf8.RuneError && l < utf8.UTFMax {
-				// Not a character (yet).  The decoder is told that
-				// the input ends here, so it substitutes for what
-				// may be the start of a multi-byte character: try
-				// the longer prefixes, or wait for the rest.
-				continue
-			}
 			if r != utf8.RuneError {
 				mod := ModNone
 				if t.escaped {
@@ -1713,11 +1709,6 @@ func (t *tScreen) parseRune(buf *bytes.Buffer, evs *[]Event) (bool, bool) {
 					t.escaped = false
 				}
 				*evs = append(*evs, NewEventKey(KeyRune, r, mod))
-			} else {
-				// No prefix is a character, drop what the decoder
-				// rejects at the front.
-				t.decoder.Reset()
-				_, nIn, _ = t.decoder.Transform(utf, b[:1], true)
 			}
 			for nIn > 0 {
 				_, _ = buf.ReadByte()
